@@ -1,12 +1,16 @@
 """C08 - forward schedules are tight and their dates encode the used capacity.  Theorems: Props_C08.v
 (the forward model fills every day from the release day to the last work day, the dates are the
-booked shares of the first / last work day, unlinked leaves are served in WBS order, the oracle c08_b
-means the statement and the model's own output passes it).  Tie: the verified oracle c08_b evaluated on
+booked shares of the first / last work day, unlinked leaves are served in WBS order, with balancing
+off removing an isolated task changes nobody else's dates, the oracle c08_b means the statement and
+the model's own output passes it).  The independence clause is also run on the implementation itself
+(pairs of WBSs with / without an extra isolated task).  Tie: the verified oracle c08_b evaluated on
 the schedule the implementation returns; C08 is also the property that ties the exact dates and the
 order of the usage rows to the deterministic model, so a disagreement on dates or rows is a broken tie
 of this property.  The numbering convention the order theorem assumes (c08_pre_code: members first,
 numbered in the order of the walk through the hierarchy) is evaluated on the abstract input of every
 case."""
+import copy
+
 from harness.props import sched_common as sc
 from harness.common import coq_list
 
@@ -37,14 +41,67 @@ def check_numbering(ctx, kept, codes):
     ctx.coverage['numbering_convention_violations'] = bad
 
 
+def with_extra_task(rng, case):
+    """(A, B): B = the case with balancing off; A = B plus one task that has nothing to do with anybody
+    (top-level, no children, no links) inserted at a random position, competing for an existing resource"""
+    b = copy.deepcopy(case)
+    b['balance'] = False
+    b['link_via_succ'] = False
+    b['now2'] = None
+    a = copy.deepcopy(b)
+    n = len(a['tasks'])
+    pos = rng.randint(0, n)
+    names = [t['resource'] for t in a['tasks']] or ['a']
+    extra = sc.T(9000 + rng.randint(0, 99), resource=rng.choice(names), est=rng.choice([8, 16, 64, 100, 320]))
+    for t in a['tasks']:
+        if t['parent'] is not None and t['parent'] >= pos:
+            t['parent'] += 1
+    a['tasks'].insert(pos, extra)
+    a['links'] = [[[k, i + 1 if k == 't' and i >= pos else i] for k, i in l] for l in a['links']]
+    return a, b, extra['id']
+
+
+def dates_by_id(out):
+    return {k['id']: tuple(t) for k, t in zip([k for k in out['w'] if not k['ext']], out['obs']['tasks'])}
+
+
+def check_independence(ctx, kept, codes):
+    """the independence clause on the implementation itself: balancing off, the same WBS with and without an
+    isolated extra task - every other task keeps start, end, estimate and spent (theorem C08_indep for the model)"""
+    pool = [c for (c, o), code in zip(kept, codes) if o.get('outcome') == 0 and not code & sc.BITS['illformed']]
+    ctx.rng.shuffle(pool)
+    pool = pool[:60 if ctx.tier == 'quick' else 800]
+    trip = [with_extra_task(ctx.rng, c) for c in pool]
+    flat = [x for a, b, _ in trip for x in (a, b)]
+    chunks = [flat[i:i + 24] for i in range(0, len(flat), 24)]
+    outs = [o for part in ctx.impl_run_many('sched_impl', chunks, jobs=12) for o in part]
+    compared = tasks_compared = 0
+    for k, (a, b, xid) in enumerate(trip):
+        oa, ob = outs[2 * k], outs[2 * k + 1]
+        if 'offgrid' in oa or 'offgrid' in ob or oa.get('outcome') != 0 or ob.get('outcome') != 0:
+            continue
+        da, db = dates_by_id(oa), dates_by_id(ob)
+        compared += 1
+        tasks_compared += len(db)
+        diff = [i for i in db if da.get(i) != db[i]]
+        if diff or set(da) != set(db) | {xid}:
+            ctx.failure('C08/fwd/independence',
+                        'balancing off: removing an isolated task changed the dates of tasks %r' % diff,
+                        {'case': a, 'without_task_id': xid, 'with': da, 'without': db})
+    ctx.coverage['independence_pairs_compared'] = compared
+    ctx.coverage['independence_tasks_compared'] = tasks_compared
+
+
 def run(ctx):
     kept, codes = sc.run_property(ctx, ID, FAIL, MISMATCH, dirs=('fwd',))
     check_numbering(ctx, kept, codes)
+    check_independence(ctx, kept, codes)
     ctx.assumptions += [
         'C08: the clock is frozen during one calc (the runner replaces datetime.now); the theorems about the encoding of '
         'the dates hold in the model for every clock, the oracle checks them only when clock <= project start',
-        'C08: the independence clause (balancing off, removing an unrelated task) is proved only as a step lemma '
-        '(C08_indep_partial); it is covered by the exact comparison of dates with the deterministic model',
+        'C08: the independence clause (balancing off) is a theorem about the model for the removal of an isolated task '
+        '(top-level leaf without links; C08_indep); on the implementation it is tested directly (the same WBS with and '
+        'without an extra isolated task, independence_pairs_compared) and through the exact comparison with the model',
     ]
 
 
